@@ -450,10 +450,8 @@ func (c *Ctx) c01Pairing() {
 				bad = append(bad, "the decoder does not convert its whole input (bytes would be dropped or altered)")
 			}
 		case tf.LenDyn == "multi":
-			// Address: handled by alignment + the family table below
-			if w := c.addressPairing(tf); w != "" {
-				bad = append(bad, w)
-			}
+			// Address: handled by alignment and, class by class, by addressRoundTrip (c01addr.go)
+			c.addressRoundTrip(tf)
 		default:
 			bad = append(bad, "unrecognised Len() shape "+tf.LenDyn)
 		}
@@ -490,82 +488,6 @@ func (c *Ctx) decoderIsConversion(d *ssa.Function) bool {
 		}
 	}
 	return ok && n > 0
-}
-
-// addressPairing: family 1 ↔ 4 bytes, family 2 ↔ 16 bytes on both sides.
-func (c *Ctx) addressPairing(tf *typeFacts) string {
-	d := tf.Decoder
-	// decoder: on family == 1 requires len(b[2:]) == 4; family == 2 requires 16
-	fam := map[int64]int64{}
-	for _, blk := range d.Blocks {
-		ifi, ok := blk.Instrs[len(blk.Instrs)-1].(*ssa.If)
-		if !ok {
-			continue
-		}
-		rl, ok := condRel(ifi.Cond, true)
-		if !ok || rl.op != token.NEQ {
-			continue
-		}
-		x, isLen := builtinOf(rl.a, "len")
-		k, isK := flow.ConstInt(rl.b)
-		if !isLen || !isK {
-			continue
-		}
-		if sl, ok := x.(*ssa.Slice); !ok || sl.Low == nil {
-			continue
-		}
-		// which family guards this block?
-		for _, g := range flow.Guards(ifi) {
-			r2, ok := condRel(g.If.Cond, g.Taken)
-			if ok && r2.op == token.EQL {
-				if f, ok := flow.ConstInt(r2.b); ok {
-					fam[f] = k
-				}
-			}
-		}
-	}
-	if fam[1] != 4 || fam[2] != 16 {
-		return fmt.Sprintf("the Address decoder's family table is %v, expected family 1 → 4 bytes, family 2 → 16 bytes", fam)
-	}
-	// Serialize: make(6) with b[1]=1, make(18) with b[1]=2
-	ser := c.methodOf(tf.T, "Serialize")
-	sizes := map[int64]int64{}
-	flow.Instrs(ser, func(in ssa.Instruction) {
-		st, ok := in.(*ssa.Store)
-		if !ok {
-			return
-		}
-		ia, ok := st.Addr.(*ssa.IndexAddr)
-		if !ok {
-			return
-		}
-		idx, ok1 := flow.ConstInt(ia.Index)
-		val, ok2 := flow.ConstInt(st.Val)
-		if !ok1 || !ok2 || idx != 1 {
-			return
-		}
-		// size of the buffer
-		if sl, ok := ia.X.(*ssa.Slice); ok {
-			if al, ok := sl.X.(*ssa.Alloc); ok {
-				if arr, ok := al.Type().Underlying().(interface{ Elem() interface{} }); ok {
-					_ = arr
-				}
-				s := al.Type().String()
-				var n int64
-				fmt.Sscanf(s, "*[%d]byte", &n)
-				sizes[val] = n
-			}
-		}
-		if mk, ok := ia.X.(*ssa.MakeSlice); ok {
-			if n, ok := flow.ConstInt(mk.Len); ok {
-				sizes[val] = n
-			}
-		}
-	})
-	if sizes[1] != 6 || sizes[2] != 18 {
-		return fmt.Sprintf("Address.Serialize writes family→size %v, expected 1 → 6 bytes, 2 → 18 bytes", sizes)
-	}
-	return ""
 }
 
 func (c *Ctx) c01Opaque(ar *ssa.Function) {
